@@ -10,7 +10,7 @@ CLAUSES = ("inorder", "delivered", "closed", "completed", "endtoend")
 def cfg_text(name, thorough):
     with open(os.path.join(vf.VERIF, "spec", name)) as f:
         t = f.read()
-    return t.replace("Pay <- Pay21", "Pay <- Pay22") if thorough else t
+    return t.replace("Pay <- Pay21", "Pay <- Pay32") if thorough else t
 
 
 def run(ck):
@@ -22,21 +22,20 @@ def run(ck):
     th = ck.thorough
     r = ck.tlc("BiPipe", cfg_text("MC_BiPipe.cfg", th), timeout=900)
     ck.exhaustive = r.finished
-    ck.tlc("BiPipe", cfg_text("MC_BiPipe_fullclose.cfg", th), timeout=900)
     live = cfg_text("MC_BiPipe_live.cfg", False)
     ck.tlc("BiPipe", live.replace("Errors = FALSE", "Errors = TRUE") if th else live, timeout=900, workers=4)
-    # the properties are not vacuous: each broken twin of the model must be rejected by TLC
-    twins = (("oneclose", "MC_BiPipe_live.cfg", "temporal"), ("noclose_on_err", "MC_BiPipe.cfg", "invariant"),
-             ("nocompletion", "MC_BiPipe.cfg", "invariant"))
-    for variant, cfg, kind in (twins if th else twins[:1]):
-        t = ck.tlc("BiPipe", cfg, constants={"Variant": '"%s"' % variant}, allow_error=True, count=False, workers=4)
-        if not t.error or t.error["kind"] != kind:
-            raise vf.Infra("BiPipe twin %s was not rejected (vacuous properties?)" % variant)
-    lead = ck.tlc("BiPipe", "MC_BiPipe_fullclose_e2e.cfg", allow_error=True, count=False, workers=4)
-    if lead.error:
-        ck.notes.append("model lead: with full-close streams (writes to a stream whose application closed fail) InvEndToEnd is violated: "
-                        "the failing write of the opposite direction closes both streams while bytes of the side that finished first "
-                        "are still undelivered; the driver family 'revloss' replays this schedule on the real Pipe over bufconn")
+    if th:
+        # the properties are not vacuous: each broken twin of the model must be rejected by TLC
+        for variant, cfg, kind in (("oneclose", "MC_BiPipe_live.cfg", "temporal"), ("noclose_on_err", "MC_BiPipe.cfg", "invariant"),
+                                   ("nocompletion", "MC_BiPipe.cfg", "invariant")):
+            t = ck.tlc("BiPipe", cfg, constants={"Variant": '"%s"' % variant}, allow_error=True, count=False, workers=4)
+            if not t.error or t.error["kind"] != kind:
+                raise vf.Infra("BiPipe twin %s was not rejected (vacuous properties?)" % variant)
+        lead = ck.tlc("BiPipe", "MC_BiPipe_fullclose_e2e.cfg", allow_error=True, count=False, workers=4)
+        if lead.error:
+            ck.notes.append("model lead: with full-close streams (writes to a stream whose application closed fail) InvEndToEndAll is violated: "
+                            "the failing write of the opposite direction closes both streams while bytes of the side that finished first "
+                            "are still undelivered; the driver family 'revloss' replays this schedule on the real Pipe over bufconn")
 
     # ---------------------------------------------------------------- (C) recorded runs of the real Pipe
     b = ck.build("pipes")
